@@ -17,7 +17,10 @@ func init() {
 // in unusual states.  The replay drivers parse one of them before every text they judge, so that a verdict never depends on the
 // pooled parser / lexer happening to be fresh: what a text parses to must not depend on what was parsed before it.
 var disturbTexts = []string{"f(a", "a)", "x = [1, 2", "x]", "if a {", "}", "\"abc", "x = (1 + ] 2", "-0x", "x = {\"k\": [1, (2", "'''open",
-	"`open", "for ;; {", "x = a[1:", "y = 1 +", ")))", "]]", "}}", "x = \"\\x", "a = 1 # c"}
+	"`open", "for ;; {", "x = a[1:", "y = 1 +", ")))", "]]", "}}", "x = \"\\x", "a = 1 # c",
+	// valid texts that name things like keywords / functions / other tokens (identifier tables, interning, memoised lookups)
+	"`in` = 1\n`true` = `in`\n`nil` = `false`", "`if` = `for` + `elif`\n`else` = `break`", "`continue` = `null` + `nan` + `inf`",
+	"`len` = 1\n`probe` = `use`", "`a b` = `+`\n`1` = `\"`", "IF = 1\nTrue1 = Nil_", "x = TRUE && False || NIL == NULL"}
 
 var disturbN int
 
